@@ -270,7 +270,12 @@ LIB_EXPORT uint64_t _plat__TimerRead(void)
     // Might have some rounding error that would loose CLOCKS. See what is not
     // being used. As mentioned above, this could result in putting back more than
     // is taken out. Here, we are trying to recreate timeDiff.
-    readjustedTimeDiff = (adjustedTimeDiff * (uint64_t)s_adjustRate) / CLOCK_NOMINAL;
+    // Round up: the time accounted for must cover the time that was credited,
+    // or the same interval is credited again at the next call (with a fast rate
+    // and calls every millisecond the TPM time ran at twice the system's rate).
+    // The result is still never larger than timeDiff.
+    readjustedTimeDiff = (adjustedTimeDiff * (uint64_t)s_adjustRate
+			  + CLOCK_NOMINAL - 1) / CLOCK_NOMINAL;
 
     // adjusted is now converted back to being the amount we should advance the
     // previous sampled time. It should always be less than or equal to timeDiff.
